@@ -22,7 +22,6 @@ import (
 	"fmt"
 	"os"
 	"sync"
-	"sync/atomic"
 	"time"
 
 	"github.com/cloudwego/kitex/pkg/klog"
@@ -263,11 +262,14 @@ func (m *xdsResourceManager) updateMeta(rType xdsresource.ResourceType, version 
 			mt.Version = version
 			mt.UpdateTime = updateTime
 		} else {
-			m.meta[rType][name] = &xdsresource.ResourceMeta{
-				Version:        version,
-				UpdateTime:     updateTime,
-				LastAccessTime: atomic.Value{},
+			// the idle clock starts when the resource is cached, so that a resource
+			// nobody looks up afterwards expires like any other
+			mt := &xdsresource.ResourceMeta{
+				Version:    version,
+				UpdateTime: updateTime,
 			}
+			mt.LastAccessTime.Store(updateTime)
+			m.meta[rType][name] = mt
 		}
 	}
 }
